@@ -325,6 +325,13 @@ def check_object(case):
                 )
             raise
         info["states"] += 1
+    if n_update and callable(getattr(obj, "reset", None)):
+        # reset() undoes the data-dependent update (the proposal resets its
+        # reparameterisations after verifying them and whenever it is
+        # reset): the object must behave as before the update again
+        run(f"{type(obj).__name__}.reset", obj.reset)
+        _check_object_state(case, obj, model, X, n, "reset", None, run, info)
+        info["states"] += 1
     return info
 
 
